@@ -29,6 +29,15 @@ theorem skeleton_matches :
     SyncShape.closeOps = modelCloseOps ∧ SyncShape.stealOps = modelStealOps ∧
     SyncShape.pushOps = modelPushOps := by decide
 
+/-- `Drop` of each of the four MT types, as re-extracted on this run: set the shutdown flag, then close
+    the queue – unconditionally (no branch, no early return), which is the `drop` step of the protocol
+    model (`MT.callerStep … true`: `shutdown := true, closed := true`, all waiters woken). -/
+def modelDropOps : List DOp := [.storeShutdown, .closeQueue]
+
+theorem drop_skeleton_matches :
+    SyncShape.lzma2ReaderDropOps = modelDropOps ∧ SyncShape.lzipReaderDropOps = modelDropOps ∧
+    SyncShape.lzma2WriterDropOps = modelDropOps ∧ SyncShape.lzipWriterDropOps = modelDropOps := by decide
+
 theorem drop_releases_all_threads (n k : Nat) (sched : List Tid) (s : Sys)
     (hr : runSched (init true n k) sched = some s) (ht : terminal s = true) :
     s.p = .done ∧ ∀ w ∈ s.ws, w = .exited :=
